@@ -145,7 +145,8 @@ def _find_in_dirs_and_read(import_dirs):
                     # TODO(bolms): Check if any other files with the same name are in the
                     # import path, and give a warning or error?
                     return f.read(), None
-            except IOError as e:
+            except (IOError, UnicodeError) as e:
+                # UnicodeError: the file exists but is not valid text.
                 errors.append(str(e))
         return None, errors + ["import path " + ":".join(import_dirs)]
 
